@@ -235,7 +235,38 @@ def flip_ifs(src: str) -> tuple:
   return ast.unparse(tree) + '\n', fl.count
 
 
+VIEW_MODES = {
+    'notemp': {'temps': True},
+    'comp': {'loops': True},
+    'inline': {'helpers': True},
+    'normal': {'helpers': True, 'temps': True, 'loops': True},
+}
+
+
+def make_view_variant(dst: str, mode: str) -> int:
+  """The checker's own second views (fdlstatic/inline.py, normalise.py)
+  written out as source trees: with --test this confirms on the unit tests
+  that the normal forms preserve behaviour, and the checks must stay silent on
+  them like on any other behaviour-preserving rewriting."""
+  sys.path.insert(0, VERIF)
+  from fdlstatic.model import Project  # pylint: disable=g-import-not-at-top
+  shutil.copytree(os.path.join(REPO, 'fiddle'), os.path.join(dst, 'fiddle'),
+                  ignore=shutil.ignore_patterns('__pycache__', '*.pyc'))
+  p = Project(REPO, expand=VIEW_MODES[mode])
+  for mod in p.modules.values():
+    rel = os.path.relpath(mod.path, REPO)
+    new = ast.unparse(mod.tree) + '\n'
+    compile(new, rel, 'exec')
+    with open(os.path.join(dst, rel), 'w') as f:
+      f.write(new)
+  for line in p.inlined[-3:]:
+    print('   ', line)
+  return len(p.inlined)
+
+
 def make_variant(dst: str, mode: str = 'alpha') -> int:
+  if mode in VIEW_MODES:
+    return make_view_variant(dst, mode)
   src = os.path.join(REPO, 'fiddle')
   shutil.copytree(src, os.path.join(dst, 'fiddle'),
                   ignore=shutil.ignore_patterns('__pycache__', '*.pyc'))
@@ -269,7 +300,7 @@ def main():
   ap = argparse.ArgumentParser()
   ap.add_argument('--prop')
   ap.add_argument('--keep', action='store_true')
-  ap.add_argument('--mode', default='alpha', choices=['alpha', 'flip', 'guard'])
+  ap.add_argument('--mode', default='alpha', choices=['alpha', 'flip', 'guard', 'notemp', 'comp', 'inline', 'normal'])
   ap.add_argument('--test', action='store_true',
                   help='also run the renamed tree\'s own unit tests '
                   '(confirms the rewriting preserves behaviour)')
@@ -278,7 +309,7 @@ def main():
   bad = 0
   try:
     n = make_variant(tmp, a.mode)
-    print(f'alpha: {n} ' + {'alpha': 'local variables renamed', 'flip': 'two-armed ifs flipped', 'guard': 'else branches turned into guard clauses'}[a.mode] + f' under {tmp}')
+    print(f'alpha: {n} ' + {'alpha': 'local variables renamed', 'flip': 'two-armed ifs flipped', 'guard': 'else branches turned into guard clauses'}.get(a.mode, 'normal-form steps (' + a.mode + ')') + f' under {tmp}')
     if a.test:
       shutil.copy(os.path.join(REPO, 'setup.py'), tmp) if os.path.exists(
           os.path.join(REPO, 'setup.py')) else None
